@@ -91,7 +91,7 @@ ScopeConfs == {ScopeF}
 ScopeRegs == {{ScopeF}}
 ------------------------------------------------------------------------------
 (* C04: references.  consumer f(p, q=...) -> producer g(x=...) -> producer h(x=...) *)
-AnyBind(c, v) == TRUE
+AnyBind(sc, c, v) == TRUE
 RefF == [ Base EXCEPT !.sel = <<"m","f">>, !.pos = <<"p","q">>, !.npd = 2, !.dflt = {<<"p", D("p")>>, <<"q", D("q")>>} ]
 RefG == [ Base EXCEPT !.sel = <<"m","g">>, !.pos = <<"x">>, !.npd = 1, !.dflt = {<<"x", D("x")>>}, !.api = "external" ]
 RefH == [ Base EXCEPT !.sel = <<"m","h">>, !.kind = "cls", !.pos = <<"x">>, !.npd = 1, !.dflt = {<<"x", D("x")>>}, !.api = "register" ]
@@ -113,14 +113,43 @@ RefValsF == Nest2 \cup { L1, GCall, GCallA, GBare, GBareA, HCall,
               <<"tuple", << <<"list", <<GBare>>>>, GCall >>>> }
 RefValsG == { L1, L2, HCall, HCallB, <<"list", <<HCall>>>> }
 RefValsH == { L1, L2 }
-RefFilter(c, v) ==
+RefFilter(sc, c, v) ==
   \/ c.sel = <<"m","f">> /\ v \in RefValsF
   \/ c.sel = <<"m","g">> /\ v \in RefValsG
   \/ c.sel = <<"m","h">> /\ v \in RefValsH
 RefBindVals == RefValsF \cup RefValsG \cup RefValsH
 RefBindValsQuick == (RefValsF \ Nest2) \cup RefValsG \cup RefValsH \cup { Wrap("tuple", Wrap("tuple", GCall)), Wrap("dict", Wrap("list", GCall)) }
-RefFilterQuick(c, v) == RefFilter(c, v) /\ v \in RefBindValsQuick
+RefFilterQuick(sc, c, v) == RefFilter(sc, c, v) /\ v \in RefBindValsQuick
 NamesRefs == <<"p", "q", "x">>
+
+------------------------------------------------------------------------------
+(* C05: macros and constants *)
+GinMacro == [ Base EXCEPT !.sel = <<"gin","macro">>, !.pos = <<"value">>, !.body = "macro", !.api = "builtin" ]
+GinConstant == [ Base EXCEPT !.sel = <<"gin","constant">>, !.body = "const", !.api = "builtin" ]
+GinSingleton == [ Base EXCEPT !.sel = <<"gin","singleton">>, !.pos = <<"constructor">>, !.body = "singleton", !.api = "builtin" ]
+MacF == [ Base EXCEPT !.sel = <<"m","f">>, !.pos = <<"p","q">>, !.npd = 2, !.dflt = {<<"p", D("p")>>, <<"q", D("q")>>} ]
+MacG == [ Base EXCEPT !.sel = <<"m","g">>, !.pos = <<"x">>, !.npd = 1, !.dflt = {<<"x", D("x")>>}, !.api = "external" ]
+MacConfs == {MacF, MacG, GinMacro, GinConstant}
+MacRegs == {MacConfs}
+Pct(n) == <<"pct", n>>
+O1 == <<"nonlit", "o1">>
+O2 == <<"nonlit", "o2">>
+MacConstNames == { <<"X">>, <<"m","X">>, <<"n","m","X">>, <<"n","Y">> }
+MacConstVals == {O1, O2}
+MacValsF == { L1, Pct(<<"X">>), Pct(<<"m","X">>), Pct(<<"Y">>), Pct(<<"W">>),
+              R(<<"gin","macro">>, <<"W">>, "bare"), <<"list", <<Pct(<<"W">>), Pct(<<"W">>)>>>> }
+MacValsM == { L1, L2, R(<<"m","g">>, <<>>, "call") }
+MacValsG == { L1 }
+MacFilter(sc, c, v) ==
+  \/ c.sel = <<"m","f">> /\ v \in MacValsF /\ sc = <<>>
+  \/ c.sel = <<"gin","macro">> /\ v \in MacValsM /\ sc \in {<<"W">>, <<"X">>}
+  \/ c.sel = <<"m","g">> /\ v \in MacValsG /\ sc = <<>>
+MacBindVals == MacValsF \cup MacValsM \cup MacValsG
+\* macro definitions live under the macro's name as scope
+MacScopeNames == {"W", "X"}
+NamesMac == <<"p", "q", "value", "x">>
+
+ConstsBound == Cardinality(consts) <= 2
 
 LockConfs == {LockF, LockG, LockH}
 LockFresh == {LockH}
